@@ -572,3 +572,46 @@ class ClosedLoopMonitor(object):
                     "t": self.mon.clock, "event_index": self.mon.events})
             if self.max_inflight.get(gname, 0) >= min(self.conc[gname], n):
                 self.stats["runs_reaching_full_concurrency"] = 1
+        # every instance -- the initial batch and the ones released when an earlier one
+        # finished -- gets deadline = release + L + clamp(L * v, min_deadline, max_deadline)
+        # (only judged when the declared variance is a single value: no fuzz answer)
+        from ..monitor import us
+
+        desc = self.mon.desc
+        fl = self.world.get("flags", {})
+        lo_b = int(fl.get("min_deadline", 0))
+        hi_b = int(fl.get("max_deadline", 2 ** 63 - 1))
+        for g in self.world["workload"]["graphs"]:
+            if g.get("release_policy") != "closed_loop":
+                continue
+            var = g.get("deadline_variance")
+            if not var or var[0] != var[1]:
+                continue
+            gd = desc.graph_of(g["name"] + "@0")
+            if gd is None or any(nd.conditional or nd.slo is not None
+                                 for nd in gd.nodes.values()):
+                continue
+            memo = {}
+
+            def longest(n):
+                if n not in memo:
+                    rt = max(sd.runtime for sd in
+                             desc.profiles[gd.nodes[n].profile].strategies)
+                    memo[n] = rt + max([longest(c) for c in gd.nodes[n].children] or [0])
+                return memo[n]
+
+            L = max(longest(n) for n in gd.sources())
+            slack = min(max(L * abs(var[0]) / 100.0, lo_b), hi_b)
+            for tg in sim._workload.task_graphs.values():
+                if tg.name.rsplit("@", 1)[0] != g["name"]:
+                    continue
+                stretch = us(tg.deadline) - us(tg.release_time)
+                self.stats["closed_loop_deadlines_judged"] = \
+                    self.stats.get("closed_loop_deadlines_judged", 0) + 1
+                if abs(stretch - (L + slack)) > 0.5 and len(self.violations) < 3:
+                    self.violations.append({
+                        "prop": "C19", "rule": "closed_loop.deadline",
+                        "msg": f"{tg.name}: deadline - release = {stretch}, described "
+                               f"critical path {L} + slack {slack} (variance {var}, "
+                               f"bounds ({lo_b}, {hi_b}))",
+                        "t": self.mon.clock, "event_index": self.mon.events})
